@@ -18,6 +18,9 @@ CHECKS = {
 CHECKS["C04"] = ("metamorphic testing: minimal vs full vs redundant parenthesisation of generated typed expression trees (exhaustive operator pairs + rapid trees, subtree-to-leaf reduction)",
          "Every ordered pair of binary operators in both tree shapes, unary/cast/ternary/assignment against every binary operator, negative literals in both spellings (complete), plus rapid-drawn well-typed trees to depth 5; the three printings of a tree must evaluate to the same value, type and final variable state.",
          "Metamorphic oracle only (no external value); '.' is mixed bare only where the statement fixes its position; non-triviality decided by an independent Go evaluator.")
+CHECKS["C05"] = ("differential testing of generated try/catch/finally programs against the reference interpreter + real-subprocess exit-status checks",
+         "Generated exception hierarchies and nested try/catch/finally inside loops, switches and functions with every exit path; marker traces compared with the reference interpreter (first matching catch, same object, finally exactly once, return/throw in finally overrides); a seeded subset plus truncated variants run through the CLI for exit status, diagnostic and flush.",
+         "PHP semantics for try/catch/finally as the reference; base control-flow constructs inherit the C02 exclusions; break/continue out of finally are not generated.")
 NOT_YET = {
 }
 
